@@ -70,6 +70,14 @@ def _pv_handler():
     PVLOG.append(1)
 
 
+def _t2(o):
+    return o.total2 if "total2" in o.trait_names() else sum(o.xs)
+
+
+def _pv(o):
+    return o.pv if "pv" in o.trait_names() else o.child.value
+
+
 def step(o, dyn, op, v):
     from traits.trait_errors import TraitError
     cv = "bad" if v == BAD else v
@@ -114,7 +122,7 @@ def step(o, dyn, op, v):
         elif op == "extra_assign":
             o.extra = cv
         elif op == "grid_append":
-            o.cgrid.append([v])
+            (o.cgrid if "cgrid" in o.trait_names() else o.child.grid).append([v])
         elif op == "grid_inner":
             o.child.grid[0].append(v)
         elif op == "pv_assign":
@@ -135,7 +143,8 @@ def step(o, dyn, op, v):
     except Exception as e:
         exc = type(e).__name__
     return {"op": op, "v": v, "pre": pre, "post": proj(o), "exc": exc, "obs": o.obs_count - obs0, "dyn": len(dyn) - dyn0,
-            "pobs": o.post_count - pobs0, "total": o.total, "total2": o.total2, "pvread": o.pv, "pvn": len(PVLOG) - pvn0}
+            "pobs": o.post_count - pobs0, "total": o.total, "total2": _t2(o), "pvread": _pv(o), "pvn": len(PVLOG) - pvn0,
+            "haspv": 1 if hasattr(type(o), "pv") or "pv" in o.trait_names() else 0}
 
 
 OPS = ["kids_child", "kids_new", "kids_dup", "n_assign", "n_assign", "tmp_assign", "ro_assign", "xs_append", "xs_append", "xs_assign", "nested_append", "nested_inner", "dl_set",
@@ -144,12 +153,15 @@ OPS = ["kids_child", "kids_new", "kids_dup", "n_assign", "n_assign", "tmp_assign
 
 def run_history(rnd, steps, t):
     build.install()
-    from .persist_classes import Obj
-    o = Obj()
+    from .persist_classes import Obj, ObjCore, ObjP
+    shape = rnd.choice([0, 1, 2])           # 0: no listener attributes at all; 1: legacy listeners; 2: plus a prototyped one
+    haspv = shape == 2
+    o = (ObjCore, Obj, ObjP)[shape]()
     dyn = []
     handler = lambda: dyn.append(1)
     o.on_trait_change(handler, "xs_items")
-    o.on_trait_change(_pv_handler, "pv")
+    if haspv:
+        o.on_trait_change(_pv_handler, "pv")
     out = []
     for s in range(steps):
         u = rnd.random()
@@ -168,18 +180,22 @@ def run_history(rnd, steps, t):
                 ids = set(id(x) for x in containers(o, deep))
                 shared = sum(1 for x in containers(c, deep) if id(x) in ids)
                 rec.update(post=proj(c), sameclass=1 if type(c) is type(o) else 0, shared=shared, total=c.total,
-                           total2=c.total2, orig_after=proj(o), pvread=c.pv)
-                o.on_trait_change(_pv_handler, "pv", remove=True)
+                           total2=_t2(c), orig_after=proj(o), pvread=_pv(c), haspv=1 if haspv else 0)
+                if haspv:
+                    o.on_trait_change(_pv_handler, "pv", remove=True)
                 o = c
-                o.on_trait_change(_pv_handler, "pv")
+                if haspv:
+                    o.on_trait_change(_pv_handler, "pv")
                 dyn = []
                 handler = (lambda d: (lambda: d.append(1)))(dyn)
                 o.on_trait_change(handler, "xs_items")
             else:
-                rec.update(post=pre, sameclass=1, shared=0, total=0, total2=0, orig_after=pre, pvread=0)
+                rec.update(post=pre, sameclass=1, shared=0, total=0, total2=0, orig_after=pre, pvread=0, haspv=1 if haspv else 0)
             out.append(rec)
             continue
         op = rnd.choice(OPS)
+        if not haspv and op in ("pv_assign", "pv_del"):
+            op = "child_value"
         v = rnd.choice([0, 0, 1, 2, BAD]) if op == "pv_assign" else rnd.choice([1, 2, 3, BAD]) if op not in ("tmp_assign", "nested_append", "dl_set", "xs_assign", "grid_append", "grid_inner") else rnd.choice([1, 2, 3])
         r = step(o, dyn, op, v)
         r.update(tid=t, step=s, kind="")
